@@ -180,7 +180,7 @@ def apply_mutation(o, kind, mut, p):
 # --------------------------------------------------------------------------- executor
 
 class Executor:
-    def __init__(self, oracle=None, alias_guidance=True, count_lines=False):
+    def __init__(self, oracle=None, alias_guidance=True, count_lines=False, record_args=False):
         """oracle: callable(req)->resp implementing F (None => outcomes are recorded but not judged)."""
         self.L = Lib()
         self.L.import_all()
@@ -188,6 +188,7 @@ class Executor:
         self.oracle = oracle
         self.alias_guidance = alias_guidance
         self.count_lines = count_lines
+        self.record_args = record_args
         self.slots = {}          # id -> live object
         self.meta = {}           # id -> {"tag","op","args","kw","key","subs":[(path,kind,aliased)]}
         self.events = []
@@ -297,6 +298,8 @@ class Executor:
         inplace = spec.inplace_args(pos, dict(kwl))
         ev["op"] = st["op"]
         ev["pre"] = [C.digest(c) for c in pre]
+        if self.record_args:
+            ev["pre_canon"] = pre
         key = _cache_key(st["op"], pre)
         ev["key"] = key
 
